@@ -111,6 +111,7 @@ fn real_main() {
                 "jbig_cycle" => families::Family::JbigCycle,
                 "long_parents" => families::Family::LongParents,
                 "icc_cycle" => families::Family::IccCycle,
+                "self_kid" => families::Family::SelfKid,
                 _ => families::Family::Rich,
             };
             let mut pool = docs::Pool::new(&repo, env_seed());
